@@ -235,6 +235,7 @@ class Fn:
         self._dom = None
         self._ptr_cache = {}
         self._prov_cache = {}
+        self._sdefs = None
         self._writes = None
         self.file = d['span']['file']
         self.line = d['span']['line']
@@ -486,6 +487,22 @@ class Fn:
             if v is None:
                 return ('cyc',)
             return v
+        # a temporary with exactly one definition (and whose address is never taken): its value is that definition,
+        # on whatever path and in whatever loop iteration it is read - no backward search, no spurious cycles
+        if isinstance(lvexpr, tuple) and lvexpr[0] == 'local' and len(lvexpr) == 2:
+            sd = self._single_defs().get(lvexpr[1])
+            if sd is not None:
+                k2 = ('#sd', lvexpr[1])
+                if k2 in self._prov_cache:
+                    v = self._prov_cache[k2]
+                    return ('cyc',) if v is None else v
+                self._prov_cache[k2] = None
+                try:
+                    v = self.rvalue(sd[2], (sd[0], sd[1]))
+                except RecursionError:
+                    v = ('cyc',)
+                self._prov_cache[k2] = v
+                return v
         self._prov_cache[key] = None
         try:
             v = self._read(lvexpr, point)
@@ -493,6 +510,30 @@ class Fn:
             v = ('cyc',)
         self._prov_cache[key] = v
         return v
+
+    def _single_defs(self):
+        """{local: (block, index, rvalue)} for locals defined by exactly one statement, never by a call, never
+        written partially and never borrowed."""
+        if self._sdefs is not None:
+            return self._sdefs
+        cnt, where, bad = {}, {}, set()
+        for bi, b in enumerate(self.blocks):
+            for i, st in enumerate(b['stmts']):
+                l = st['lhs']['l']
+                if st['lhs']['p']:
+                    if st['lhs']['p'][0] != 'deref':
+                        bad.add(l)
+                else:
+                    cnt[l] = cnt.get(l, 0) + 1
+                    where[l] = (bi, i, st['rv'])
+                rv = st['rv']
+                if rv['k'] in ('ref', 'rawptr') and rv.get('place') and (not rv['place']['p'] or rv['place']['p'][0] != 'deref'):
+                    bad.add(rv['place']['l'])
+            t = b['term']
+            if t['k'] == 'call' and t.get('dest'):
+                bad.add(t['dest']['l'])
+        self._sdefs = {l: where[l] for l, c in cnt.items() if c == 1 and l not in bad and l > self.argc}
+        return self._sdefs
 
     def _read(self, lvexpr, point):
         if isinstance(lvexpr, tuple) and lvexpr[0] == 'phi':
@@ -566,6 +607,22 @@ class Fn:
         # memory behind a pointer that exists at entry (param-derived / call-derived)
         return ('entry', lvexpr)
 
+    ADTS = None     # the crate's ADT table (set by Facts), for projecting named fields out of struct literals
+
+    @staticmethod
+    def _named_field(agg, name):
+        nm = str(agg[1])
+        for adt_id in (nm, nm.rsplit('::', 1)[0]):
+            adt = Fn.ADTS.get(adt_id) if Fn.ADTS else None
+            if not adt:
+                continue
+            for v in adt['variants']:
+                if len(v['fields']) == len(agg[2]) and (len(adt['variants']) == 1 or nm.endswith('::' + v['name'])):
+                    for i_, fl in enumerate(v['fields']):
+                        if fl['name'] == name:
+                            return i_
+        return None
+
     @staticmethod
     def _project(val, path):
         e = val
@@ -574,6 +631,9 @@ class Fn:
                 # projection of an aggregate we know
                 if isinstance(e, tuple) and e[0] == 'agg' and p[1].isdigit() and int(p[1]) < len(e[2]) and (e[1] in ('tuple', 'array') or '::' in e[1]):
                     e = e[2][int(p[1])]
+                elif isinstance(e, tuple) and e[0] == 'agg' and '::' in str(e[1]) and Fn.ADTS is not None and Fn._named_field(e, p[1]) is not None:
+                    # a named field of a struct literal built in this function
+                    e = e[2][Fn._named_field(e, p[1])]
                 elif isinstance(e, tuple) and e[0] == 'entry':
                     # a field of the value a place had at entry = the value its field place had at entry
                     e = ('entry', ('field', e[1], p[1]))
@@ -603,6 +663,10 @@ class Fn:
                 return None
             wlv = self.lv(lhs, (bi, i))
         else:
+            if rroot == ('local', lhs['l']):
+                # a store through pointer p never changes the pointer variable p itself (asking would be circular:
+                # resolving the target of the store needs the very value being read)
+                return None
             wlv = self.lv(lhs, (bi, i))
             if isinstance(wlv, tuple) and wlv[0] == 'phi':
                 # store through a pointer with several targets: may-write to each
@@ -1018,6 +1082,7 @@ class Facts:
         self.statics = self.d['statics']
         self.fmt = self.d['fmt']
         self.adts = {a['id']: a for a in self.d.get('adts', [])}
+        Fn.ADTS = self.adts
         self._cg = None
         self.closures_of = collections.defaultdict(list)
         for f in self.d['fns']:
